@@ -59,4 +59,24 @@ TEXTS = {
                   'comparing input and output flatbuffers.'),
         'note': 'Composition (erase(output) = input for whole runs) is validated by the oracle, not yet proved. Axioms: none.',
     },
+    'C09': {
+        'level': ('Theorem (all models, recipes, matchers, stores, sample indices): one calibration sample changes a '
+                  "tensor's entry at most once and then by exactly that sample's min/max of that tensor, regardless of "
+                  'how many selected ops touch it or how many virtual I/O operators have accumulated; first sample '
+                  'initialises; recorded entries never become empty. Model (Calibrator + init/collect functions, '
+                  'statistics as terms) tied to /repo by correspondence K with BITWISE comparison of the moving '
+                  "average evaluated from the check's own interpreter samples, incl. chained multi-signature runs; "
+                  'direct oracles for exactness, resumability (random splits), previous-result immutability, '
+                  'history independence.'),
+        'note': 'Resume law executed, not yet proved in Coq. Interpreter contents are runtime. Axioms: none.',
+    },
+    'C10': {
+        'level': ('Theorem: the calibration-side and quantization-side scope functions, REGENERATED from the two '
+                  'source files on every run, produce the same token list for every list of result tensors; hence '
+                  'identical resolution of every operator under every rule list and matcher, per operator of every '
+                  'subgraph incl. the virtual INPUT/OUTPUT ops. Correspondences K and P tie both selection loops to '
+                  '/repo; oracles compare the selection sets computed with the library\'s own scope functions and '
+                  'run quantize(calibrate()) for missing statistics, over anchored and ;-containing regexes.'),
+        'note': 'No-missing-statistics executed, not proved. Axioms: none.',
+    },
 }
